@@ -43,6 +43,21 @@ func c10Types() []ref.Item {
 		{ref.Slice(ref.Struct(ref.Fld(1, pint), ref.Fld(2, ref.Slice(L(ref.KInt))))), ""},
 		{L(ref.KNullString), "intern"}, {ref.Ptr(L(ref.KString)), ""},
 	}
+	// every map shape also in the protobuf map form (another reader with its own scratch handling)
+	for _, b := range bases {
+		if b.t.K == ref.KMap && b.opt == "" && ref.ClassOf(ref.Cfg{}, b.t.Elem, "") != ref.CS {
+			dup := false
+			for _, o := range bases {
+				dup = dup || (o.opt == "proto" && o.t.String() == b.t.String())
+			}
+			if !dup {
+				bases = append(bases, struct {
+					t   *ref.T
+					opt string
+				}{b.t, "proto"})
+			}
+		}
+	}
 	var out []ref.Item
 	for _, b := range bases {
 		out = append(out, ref.Item{T: ref.Struct(ref.FldO(1, b.opt, b.t), ref.F{Name: "Z", Index: 9, T: L(ref.KInt)}), Base: b.t, Opt: b.opt, Pos: "field"})
